@@ -18,7 +18,7 @@ RULE = ('each case is one session (connect + 1-4 ops over all operations) run wi
 ASSUMPTIONS = ['a transport reports the number of bytes it accepted (BaseTransport.bulk_write contract); accepting nothing is reported as the transport timeout error or as 0']
 EXPECT_PROBES = {'all': ['short_writes', 'c15_tcp_leg', 'c15_stuck', 'c15_zero_capacity_call']}
 KINDS = ['shell', 'exec_out', 'streaming_shell', 'list', 'stat', 'pull', 'push', 'push', 'root']
-TCP_LEG = False
+TCP_LEG = True
 OWN = ('wire-format', 'truncated', 'sequence-differs', 'not-a-prefix', 'hang', 'no-termination', 'bound-exceeded', 'wrong-result', 'stuck-returned')
 
 
@@ -80,6 +80,8 @@ def evaluate(case, tapes=None):
     mode = scn['config'].get('short')
     if mode == 'stuck':
         pr['c15_stuck'] = 1
+    if getattr(run, 'sock', None) is not None and not run.abort:
+        run.sock.flush(run.clock.now)       # bytes the kernel accepted are delivered eventually
     recs = run.results[0]
     all_ok = all(r['ok'] for r in recs) and len(recs) == len(scn['actors'][0])
     a, b = _msgs(run0.device), _msgs(run.device)
